@@ -49,7 +49,7 @@ Print Assumptions C15_affix_pattern_roundtrip.
    that path in any letter case *)
 Theorem C15_path_access_any_case : forall path f v f' path',
   setitem f path v = Some f' -> map ascii_upper path' = map ascii_upper path ->
-  getitem f' path' = Some (FLeaf v).
+  getitem f' path' = Some (val_of v).
 Proof. exact get_set_same. Qed.
 Print Assumptions C15_path_access_any_case.
 
